@@ -3,6 +3,8 @@
 import json, sys
 
 CLAIMED = {
+ "C07": ("3/C07", "seeded search over training-loop histories (persistent leaves, per-iteration programs with views and in-place updates, leaf updates inside and outside no_autodiff, null_grad, verbatim repeated iterations, varied handle-drop order) with the cyclic collector disabled (lane R) or driven by events and PEP 669 pre-emption (lane G); weakref ground truth for 'everything in the cleared graph the caller does not hold is dead without a GC pass', a per-handle gradient-lifetime state machine, bit-identical repeats, gradients vs the tape",
+         "trusts: the public-attribute walk to enumerate the graph before backward; 'legitimately retained' = reachable from caller-held objects through data/base/grad or through an un-cleared creator (gc.get_referents closure); backward passes after an aborted (InvalidBackprop) pass are not judged"),
  "C12": ("3/C12", "seeded search over mixed histories (ops on tensors, caller arrays and views of either, out=, in-place, nnet layers) with backward seeded by caller arrays (also one array for two terminals), tensors and arrays taken from .data/.grad; byte checksums of every caller-owned array and every tensor's data around every event, pairwise grad/grad, grad/data and grad/caller-array aliasing after backward, and the operational test 'add 1 to one .grad in place, re-checksum everything else'",
          "trusts: np.shares_memory; backward passes through partially cleared graphs are not judged (C09's subject); aliasing caused by the un-copied seed is a listed known finding (an existing test depends on it)"),
  "C14": ("3/C14", "seeded search over DAG programs with terminals of every shape and float16/32/64 leaves: L.backward(g) and (L*g).sum().backward() executed as two schedules of the same program and compared with each other and with the tape; non-broadcastable seeds injected as faults (must raise, must write nothing); nnet layers as terminals; after every statement every .grad is None or an exact ndarray of the tensor's shape and dtype",
